@@ -225,6 +225,10 @@ def st_prog(draw, order, nbars, mode="loop", max_ops=14, open_bars=()):
         if phase == "init":
             bar = 0  # operations issued from Strategy.initialize(): recorded in, and notified at the end of, the first bar
         prog.append([bar, phase] + draw(st_op(key)))
+    if mode == "loop":
+        # reads of the market balance / account status from inside the phases (no record, no state change)
+        for _ in range(draw(st.integers(0, 3))):
+            prog.append([draw(st.integers(0, nbars - 1)), draw(st.sampled_from(["before", "on", "on", "after"])), draw(st.sampled_from(market_keys(order))), "read"])
     # preludes: with probability 1/2 per market, operations that establish a holding early (so later ones meet state)
     pre = []
     pb = 0
